@@ -278,12 +278,21 @@ def upsert_role(ctx):
                 for e in p.events:
                     if e[0] != 'call' or e[1] not in prog.bodies:
                         continue
-                    pos = {}
+                    pos, term = {}, {}
                     for i, a in enumerate(e[2]):
                         if isinstance(a, tuple) and a and a[0] == 'payload' and a[2] == 'Upsert' and isinstance(a[3], int) and a[3] < len(fields):
                             pos[fields[a[3]]] = i + 1
-                    if {'old_weight', 'new_weight', 'value_entry'} <= set(pos):
-                        res = {'nid': e[1], 'key': pos.get('key_hash'), 'entry': pos['value_entry'], 'old': pos['old_weight'], 'new': pos['new_weight'], 'consumer': nid}
+                            term[fields[a[3]]] = ('param', i + 1)
+                        elif isinstance(a, tuple) and a and a[0] == 'aggr' and norm(str(a[1])) in prog.adts:
+                            # the fields travel in an argument struct: callee-side term = field of that parameter
+                            ad_ = prog.adts[norm(str(a[1]))]
+                            fn_ = [f_['name'] for f_ in ad_['variants'][0]['fields']]
+                            for j, fv in enumerate(a[3]):
+                                if isinstance(fv, tuple) and fv and fv[0] == 'payload' and fv[2] == 'Upsert' and isinstance(fv[3], int) and fv[3] < len(fields) and j < len(fn_):
+                                    term[fields[fv[3]]] = ('fld', ('param', i + 1), fn_[j])
+                    if {'old_weight', 'new_weight', 'value_entry'} <= set(term):
+                        res = {'nid': e[1], 'key': pos.get('key_hash'), 'entry': pos.get('value_entry'), 'old': pos.get('old_weight'), 'new': pos.get('new_weight'), 'consumer': nid,
+                               'key_t': term.get('key_hash'), 'entry_t': term['value_entry'], 'old_t': term['old_weight'], 'new_t': term['new_weight']}
                 if res:
                     break
             if res:
@@ -453,7 +462,9 @@ def _derive(ctx, key):
             reads = set()
             for x in [n] + prog.closures_of.get(n, []):
                 reads |= {e[2] for e in eff.direct.get(x, ()) if e[0] == 'read'}
-            if 'max_capacity' not in reads:
+            # the capacity is read from the cache state, or handed in by the caller (checked at the call sites by the rules using the role)
+            cap_param = any(l['ty']['s'] == 'std::option::Option<u64>' for l in b.locals[1:b.argc + 1])
+            if 'max_capacity' not in reads and not cap_param:
                 continue
             if what == 'weights_to_evict' and 'weighted_size' not in reads:
                 continue
